@@ -79,6 +79,13 @@ def _cat(v):
 def conservation(d):
     """Check totals / profiles / folder tree against the `files` section alone.
     Returns a list of problem strings (empty = holds)."""
+    try:
+        return _conservation(d)
+    except (KeyError, TypeError, AttributeError, ValueError, IndexError) as e:
+        return ["report structure is malformed (%s: %s)" % (type(e).__name__, e)]
+
+
+def _conservation(d):
     probs = []
     try:
         cb = d["codebase"]
